@@ -471,6 +471,16 @@ def build_call(v):
         kw["fully_diagonalize"] = np.array(v["fd_override"]["array"], dtype=bool)
     else:
         kw["fully_diagonalize"] = implrun.build_fully(c)
+    if v["solver"] == "diag_user":
+        # a solver the user builds with the library's own factory, from the exact H_0 levels
+        from pymablock.block_diagonalization import solve_sylvester_diagonal
+        E = energies(c)
+        bl_ = blocks_of(c)
+        if fmt == "sympy":
+            eigs = tuple(np.array([implrun.to_sympy([[E[k]]])[0, 0] for k in blk], dtype=object) for blk in bl_)
+        else:
+            eigs = tuple(implrun.to_numpy([[E[k] for k in blk]], real_if_possible=all(E[k].im == 0 for k in blk))[0] for blk in bl_)
+        kw["solve_sylvester"] = solve_sylvester_diagonal(eigs)
     if v["solver"] == "two":
         kw["solve_sylvester"] = lambda Y, index: Y
     elif v["solver"] == "one":
@@ -570,7 +580,18 @@ def observe(v, upto=2, check_finite=False):
                             try:
                                 val = S[(i, j) + tuple(o)]
                             except Exception as e:  # noqa: BLE001
-                                return dict(verdict=exn_name(e), stage=n, msg=str(e)[:100], warnings=seen)
+                                # an input rejected at first use must be rejected EVERY time the
+                                # quantity is needed: repeat the failing request, then ask for the
+                                # other series at the same index and repeat once more
+                                again = []
+                                for S2 in (S,) + tuple(res) + (S,):
+                                    try:
+                                        S2[(i, j) + tuple(o)]
+                                        again.append("value")
+                                    except Exception as e2:  # noqa: BLE001
+                                        again.append(exn_name(e2))
+                                return dict(verdict=exn_name(e), stage=n, msg=str(e)[:100], warnings=seen,
+                                            repeat=[again[0], again[-1]], element=[i, j] + list(o))
                             if check_finite:
                                 finite = finite and value_finite(val)
     return dict(verdict="accept", stage=None, finite=finite, warnings=seen)
@@ -830,6 +851,12 @@ def tie_validate(ctx, ncases=None):
         terms.append("life_eqb (life %s %s) %s" % (call, sched, expected_term(obs)))
         obss.append(obs)
         kept.append(v)
+    for v, obs in zip(kept, obss):
+        if obs.get("repeat") and "value" in obs["repeat"]:
+            # the model's lazy tests are stateless (on_first_use; C16_diagonal_shared_rejected: the
+            # closure state is unchanged by a rejection): every repetition is rejected again
+            disagreements.append(dict(what="model rejects every use (%s); the implementation returned a value when the failing request %s was repeated: %s"
+                                      % (summary(v), obs.get("element"), obs["repeat"]), input=v, impl=obs, model="Reject at every use"))
     failing = core.coq_eval_cases("k_validate", HEADER, terms, shard=150)
     for idx in failing:
         disagreements.append(dict(what="validation model and block_diagonalize disagree (%s)" % summary(kept[idx]), input=kept[idx], impl=obss[idx],
